@@ -422,7 +422,20 @@ func (c *c12W) apply(n c12Notif) {
 	}
 }
 
+// drain applies the notifications that are already there.
+func (c *c12W) drain() {
+	for {
+		select {
+		case n := <-c.notif:
+			c.apply(n)
+		default:
+			return
+		}
+	}
+}
+
 func (c *c12W) settle() {
+	c.drain()
 	for !c.stable() && !c.timeout {
 		select {
 		case n := <-c.notif:
@@ -458,9 +471,8 @@ func (c *c12W) enq(its []c12Item, many bool) {
 	if c.gate != "" {
 		c.enqAtGate++
 	}
-	async := c.mode == 2 && c.gate != "" && !c.wclosed
-	predictedSlow := c.maxQ > 0 && c.qbytes+bytes > c.maxQ
-	if !async {
+	if c.mode != 2 {
+		// goroutine modes: enqueue never takes writer.mu, the call returns at once
 		res := c12Res(call())
 		if res != "RClosed" {
 			c.qlen += len(its)
@@ -469,24 +481,18 @@ func (c *c12W) enq(its []c12Item, many bool) {
 		c.apply(c12Notif{kind: 1, id: id, res: res})
 		return
 	}
-	// timer mode with a flush at the gate: the call blocks on writer.mu after its Add (unless it
-	// returns DisconnectSlow first). Wait until the Add is visible, so that log order = queue order.
+	// timer mode: the call takes writer.mu after its Add, so it may block behind a flush that is at
+	// the gate (now or, when the timer fires during the call, a moment later): never call it on the
+	// controlling goroutine. Wait until the Add is visible, so that log order = queue order.
 	before := c.w.messages.Len()
 	go func() { c.notif <- c12Notif{kind: 1, id: id, res: c12Res(call())} }()
-	deadline := time.Now().Add(3 * time.Second)
-	for c.w.messages.Len() != before+len(its) && time.Now().Before(deadline) {
-		runtime.Gosched()
-	}
-	c.qlen += len(its)
-	c.qbytes += bytes
-	if predictedSlow {
-		select {
-		case n := <-c.notif:
-			c.apply(n)
-		case <-time.After(3 * time.Second):
-			c.timeout = true
+	if !c.wclosed {
+		deadline := time.Now().Add(3 * time.Second)
+		for len(its) > 0 && c.w.messages.Len() != before+len(its) && len(c.notif) == 0 && time.Now().Before(deadline) {
+			runtime.Gosched()
 		}
-		return
+		c.qlen += len(its)
+		c.qbytes += bytes
 	}
 	c.pending[id] = true
 }
@@ -510,6 +516,20 @@ func (c *c12W) doRelease(fail bool) {
 		}
 	}
 	c.release <- err
+	// the thread that was at the gate still runs the rest of its critical section (timer mode: the
+	// re-arm decision reads Len): wait until writer.mu has been released, or something else arrived
+	deadline := time.Now().Add(3 * time.Second)
+	for time.Now().Before(deadline) {
+		c.drain()
+		if c.gate != "" {
+			break
+		}
+		if c.w.mu.TryLock() {
+			c.w.mu.Unlock()
+			break
+		}
+		runtime.Gosched()
+	}
 	c.settle()
 }
 
